@@ -579,6 +579,11 @@ def run(ctx, chk):
     borrow(ctx, chk, 'C01.13', 'D', 'block extent: the translator and the interpreter cut a block at the same instruction '
            '(same terminators, same region ends: a block that starts in the fixed bank never runs on into the switchable '
            'one) - the clauses C04.3 and C03.5, evaluated here as well', 'c03', ['C03.5'], floor=8)
+    # ---- rule 14: the translation that is entered was made from the bytes mapped now (a block cached for another bank of
+    # the switchable window is another program: its effect is not that of the instructions the interpreter would execute)
+    borrow(ctx, chk, 'C01.14', 'D', 'the translated block that is entered belongs to the code mapped now: the cache key used '
+           'for lookup and insertion follows the bank read from the controller in the same activation - clause C03.1, '
+           'evaluated here as well', 'c03', ['C03.1'], floor=2)
     chk.assumptions += ['x86-64 semantics of the template bytes are not interpreted: a wrong opcode byte inside an emit_* '
                         'template is outside the reach of this check (DESIGN 2.4); the 60-entry effect table in '
                         'gbsa/emitmodel.py is trusted and fails closed on unknown templates',
